@@ -84,6 +84,12 @@ def run(ctx):
     base.run_twin(ctx, "njobs_vs_one", large, shrink=False)
     readd = [TW.gen_c05_readd(ctx.seed, i) for i in range(ctx.scale(12, 120))]
     base.run_twin(ctx, "njobs_vs_one", readd, shrink=False)
+    huge = [TW.gen_huge(ctx.seed, i, ["radius", "knn", "clusters", "lsh"], "C05", det=False) for i in range(ctx.scale(6, 60))]
+    base.run_twin(ctx, "chunk_vs_rows", huge, shrink=False)
+    # ... and against process pools (what a query leaves on the bandit is lost in a worker process)
+    base.run_twin(ctx, "njobs_vs_one", [dict(h, jobs=2, backend=[None, "loky", "multiprocessing"][i % 3]) for i, h in
+                                        enumerate(TW.gen_huge(ctx.seed, 100 + i, ["radius", "knn", "tree"], "C05") for i in range(ctx.scale(3, 30)))],
+                  shrink=False)
     more = [TW.gen_c05(ctx.seed, 10000 + i) for i in range(ctx.scale(200, 2000))]
     base.run_twin(ctx, "chunk_vs_rows", more)
     base.run_twin(ctx, "fit_task_orders", more)
